@@ -292,12 +292,15 @@ kastore_read_descriptors(kastore_t *self)
             goto out;
         }
         self->items[j].type = (int) type;
-        if (key_start + key_len > self->file_size) {
+        /* Compare in a form that cannot wrap around: the descriptor fields
+         * are arbitrary 64 bit values read from the file. */
+        if (key_start > self->file_size || key_len > self->file_size - key_start) {
             goto out;
         }
         self->items[j].key_start = (size_t) key_start;
         self->items[j].key_len = (size_t) key_len;
-        if (array_start + array_len * type_size(type) > self->file_size) {
+        if (array_start > self->file_size
+            || array_len > (self->file_size - array_start) / type_size(type)) {
             goto out;
         }
         self->items[j].array_start = (size_t) array_start;
